@@ -1050,7 +1050,10 @@ def replay(run: Run, path: str):
     print(f"model (fx = {'true' if FX else 'false'}, {'wsem_where' if G.weighted else SEM[MIX]}) agrees with the implementation on this history:", r == [])
     if fx != CLAIMED_FX:
         print("the theorems of Props/C01.v are about fx = true: they do not speak about this tree")
-    if mix != CLAIMED_MIX:
+    if mix is None:
+        print("the rule of State.revert(subset) of this tree was not recognised (neither the row-wise selection of values AND weights of the "
+              "tie of Props/C01.v, nor the blend of the code before fe0cadd)")
+    elif mix != CLAIMED_MIX:
         print("the tie of Props/C01.v is made with xsem_where: this tree does not select in State.revert(subset)")
     wrong = bool(bad or r or scope_bad or fx != CLAIMED_FX or mix != CLAIMED_MIX)
     print("REPLAY", "FAILS" if wrong else "passes")
